@@ -397,6 +397,36 @@ def gen_engine_histories(ctx):
                 pos += size
                 events.append(["process", xs, ("float" if (n + pos) % 2 else "array1") if size == 1 else "array", None])
             yield {"setting": st, "events": events, "weighted": "WeightedAverage" if n % 2 else "WeightedSum", "label": f"engine {seq}/{'+'.join(map(str, cut))}"}
+    # steps that activate NOTHING (empty fuzzy output -> defuzzified value NaN -> the cascade must still run): symbol E =
+    # a process() call with the rule block disabled / every rule disabled; with a First/Threshold/Highest activation an
+    # input that matches no term (N) triggers nothing either.  Exhaustive over sequences of length <= 3 of {N,I,B,A,E} x 12 settings.
+    acts = ["General", "First", "Threshold", "Highest"]
+    ENGINE_X5 = dict(ENGINE_X, E=0.4)
+    for ln in (1, 2, 3):
+        for seq in itertools.product("NIBAE", repeat=ln):
+            if "E" not in seq and "N" not in seq:
+                continue
+            for st in SETTINGS:
+                n += 1
+                act = acts[n % 4]
+                events = []
+                for j, sym in enumerate(seq):
+                    kind = "float" if (act != "General" or (n + j) % 2) else "array1"
+                    events.append(["process", [ENGINE_X5[sym]], kind, None, (("block_off", "rules_off")[(n + j) % 2] if sym == "E" else None)])
+                yield {"setting": st, "events": events, "weighted": "WeightedAverage" if n % 2 else "WeightedSum", "activation": act,
+                       "label": f"engine-empty {''.join(seq)}/{act}"}
+    # an output disabled while the engine is restarted, then re-enabled and processed: restart clears EVERY output
+    for st in SETTINGS:
+        for ln in (1, 2):
+            for seq in itertools.product("NIBA", repeat=ln):
+                for off in (0, 1):
+                    for after in ("N", "I", "NN"):
+                        n += 1
+                        events = [["process", [ENGINE_X[sym]], "float" if n % 2 else "array1", None, None] for sym in seq]
+                        events.append(["restart", off])
+                        events += [["process", [ENGINE_X[sym]], "float", None, None] for sym in after]
+                        yield {"setting": st, "events": events, "weighted": "WeightedAverage" if n % 2 else "WeightedSum", "activation": "General",
+                               "label": f"engine-restart {''.join(seq)}|restart(y{off + 1} disabled)|{after}"}
     sc = seq_cuts(4)
     for _ in range(ctx.n(2500, 40000)):
         seq, cut = rng.choice(sc)
@@ -406,12 +436,15 @@ def gen_engine_histories(ctx):
             pos += size
             r = rng.random()
             if events and r < 0.15:
-                events.append(["restart"])
+                events.append(["restart", rng.choice([None, None, 0, 1])])
             elif events and r < 0.30:
                 events.append(["clear"])
             if rng.random() < 0.25:  # a process() call while one output variable is disabled
-                events.append(["process", [rng.choice(list(ENGINE_X.values())) for _ in range(size)], "array" if size > 1 else rng.choice(kinds[:2]), rng.randrange(2)])
-            events.append(["process", xs, "array" if size > 1 else rng.choice(kinds[:2]), None])
+                events.append(["process", [rng.choice(list(ENGINE_X.values())) for _ in range(size)], "array" if size > 1 else rng.choice(kinds[:2]), rng.randrange(2), None])
+            if rng.random() < 0.2:  # a process() call that activates nothing
+                events.append(["process", [rng.choice(list(ENGINE_X.values())) for _ in range(size)], "array" if size > 1 else rng.choice(kinds[:2]),
+                               rng.choice([None, None, 0, 1]), rng.choice(["block_off", "rules_off"])])
+            events.append(["process", xs, "array" if size > 1 else rng.choice(kinds[:2]), None, None])
         yield {"setting": rng.choice(SETTINGS), "events": events, "weighted": rng.choice(["WeightedAverage", "WeightedSum"]), "label": f"engine {seq}/{'+'.join(map(str, cut))}"}
 
 
@@ -448,7 +481,9 @@ def build_engine(h):
     y2 = fl.OutputVariable("y2", defuzzifier=H["Recording"](getattr(fl, h["weighted"])()),
                            terms=[fl.Constant("below", 0.5), fl.Constant("inside", 1.5), fl.Constant("above", 3.0)], **kw)
     e.output_variables = [y1, y2]
-    e.rule_blocks = [fl.RuleBlock("rb", implication=fl.Minimum(), activation=fl.General(), rules=[
+    act = {"General": lambda: fl.General(), "First": lambda: fl.First(1, 0.0), "Threshold": lambda: fl.Threshold(">", 0.5),
+           "Highest": lambda: fl.Highest(1)}[h.get("activation", "General")]()
+    e.rule_blocks = [fl.RuleBlock("rb", implication=fl.Minimum(), activation=act, rules=[
         fl.Rule.create("if x is a then y1 is p and y2 is below", e), fl.Rule.create("if x is b then y1 is q and y2 is inside", e),
         fl.Rule.create("if x is c then y1 is r and y2 is above", e)])]
     return e
@@ -469,6 +504,7 @@ def run_engine(h):
 
     traces = [{"cfg": cfg, "events": [], "label": f"{h['label']} {o.name} {h['weighted'] if i else 'Centroid'}", "engine": h} for i, o in enumerate(outs)]
     obs = [[snap(o, None, 0)] for o in outs]
+    empty_ok = True  # harness self-check: the steps meant to activate nothing really leave the fuzzy outputs empty
     for ev in h["events"]:
         exc = None
         before = [o.defuzzifier.calls for o in outs]
@@ -478,16 +514,35 @@ def run_engine(h):
             with np.errstate(all="ignore"):
                 if ev[0] == "process":
                     xs, kind, off = ev[1], ev[2], ev[3]
+                    mode = ev[4] if len(ev) > 4 else None
+                    rb = e.rule_blocks[0]
                     e.input_variables[0].value = float(xs[0]) if kind == "float" else np.array(xs, dtype=float)
                     if off is not None:
                         outs[off].enabled = False
+                    if mode == "block_off":
+                        rb.enabled = False
+                    elif mode == "rules_off":
+                        for r in rb.rules:
+                            r.enabled = False
                     try:
                         e.process()
                     finally:
                         if off is not None:
                             outs[off].enabled = True
+                        rb.enabled = True
+                        for r in rb.rules:
+                            r.enabled = True
+                    if mode is not None:
+                        empty_ok = empty_ok and all(not o.fuzzy.terms for o in outs)
                 elif ev[0] == "restart":
-                    e.restart()
+                    off = ev[1] if len(ev) > 1 else None
+                    if off is not None:
+                        outs[off].enabled = False
+                    try:
+                        e.restart()
+                    finally:
+                        if off is not None:
+                            outs[off].enabled = True
                 else:
                     for o in outs:
                         o.clear()
@@ -495,12 +550,19 @@ def run_engine(h):
             exc = type(ex).__name__
         for i, o in enumerate(outs):
             if ev[0] != "process":
-                traces[i]["events"].append(["clear"])
+                traces[i]["events"].append(["clear", ev[0] if ev[0] != "restart" or len(ev) < 2 or ev[1] is None else f"restart with y{ev[1] + 1} disabled"])
             elif ev[3] == i:
                 traces[i]["events"].append(["disabled", []])
             else:
-                traces[i]["events"].append(["call", o.defuzzifier.last if o.defuzzifier.last is not None else []])
+                if o.defuzzifier.last is not None:
+                    traces[i]["events"].append(["call", o.defuzzifier.last])
+                elif not o.fuzzy.terms:  # defuzzifier not called on an empty fuzzy output: its value would have been NaN
+                    traces[i]["events"].append(["call", [NAN], "defuzzify() not called by Engine.process()"])
+                else:
+                    traces[i]["events"].append(["call", []])
             obs[i].append(snap(o, exc, o.defuzzifier.calls - before[i]))
+    for t in traces:
+        t["empty_ok"] = empty_ok
     return traces, obs
 
 
@@ -510,10 +572,19 @@ def process_engine(h):
     for t, o in zip(traces, obs):
         notes = []
         r = oracle_check(t, o, "engine")
-        if r is None and any(e[0] == "call" and not e[1] for e in t["events"]):
-            r = ("defuzzify:not-called", f"{t['label']}: Engine.process() did not call the defuzzifier of an enabled output variable ({h['events']})")
+        skipped = next((i for i, e in enumerate(t["events"]) if e[0] == "call" and not e[1]), None)
+        if skipped is not None and (r is None or not r[1].startswith("event ") or int(r[1].split()[1]) >= skipped):
+            r = ("cascade:engine-step-skipped", f"event {skipped} {h['events'][skipped]}: Engine.process() did not defuzzify the enabled output variable although its fuzzy output is not empty ({t['cfg']})")
+        elif r is not None and r[1].startswith("event ") and len(t["events"][int(r[1].split()[1])]) > 2 and t["events"][int(r[1].split()[1])][0] == "call":
+            # the state differs from the documented cascade at a step that Engine.process() skipped (empty fuzzy output => NaN)
+            r = ("cascade:engine-step-skipped", r[1] + f" -- engine events {h['events']}")
         if r:
-            notes.append((r[0].replace("defuzzify:", "engine-process:").replace("clear:", "engine-restart:"), f"{t['label']}: {r[1]}", "engine"))
+            sig = r[0].replace("defuzzify:", "engine-process:")
+            if sig == "clear:reset":
+                sig = "cascade:restart-keeps-state" if "restart" in r[1].split("(kind")[0] else "engine-clear:reset"
+            notes.append((sig, f"{t['label']}: {r[1]}", "engine"))
+        if not t.get("empty_ok", True):
+            notes.append(("harness:empty-step-not-empty", f"{t['label']}: a step meant to activate nothing left activated terms in a fuzzy output", "engine"))
         rows = sum(len(e[1]) for e in t["events"] if e[0] == "call")
         nanrows = sum(1 for e in t["events"] if e[0] == "call" for x in e[1] if x != x)
         out.append({"notes": notes, "lit": coq_case(t, o), "trace": {"cfg": t["cfg"], "events": t["events"], "label": t["label"], "engine": h},
@@ -689,6 +760,11 @@ def run(ctx, build, verdict, ev):
             estats["process_calls"] += sum(e[0] == "process" for e in h["events"])
             estats["process_with_disabled_output"] += sum(e[0] == "process" and e[3] is not None for e in h["events"])
             estats["restarts"] += sum(e[0] == "restart" for e in h["events"])
+            estats["restarts_with_disabled_output"] = estats.get("restarts_with_disabled_output", 0) + sum(e[0] == "restart" and len(e) > 1 and e[1] is not None for e in h["events"])
+            estats["process_activating_nothing"] = estats.get("process_activating_nothing", 0) + sum(
+                e[0] == "process" and ((len(e) > 4 and e[4] is not None) or (h.get("activation", "General") != "General" and e[1] == [ENGINE_X["N"]])) for e in h["events"])
+            estats.setdefault("activations", {})
+            estats["activations"][h.get("activation", "General")] = estats["activations"].get(h.get("activation", "General"), 0) + 1
             estats["clears"] += sum(e[0] == "clear" for e in h["events"])
         if not build.translation_errors and build.ok:
             fut = pool.submit(vlib.run_coq_cases, ctx.work, "c12_engine", COQ_IMPORTS, [(CASE_TYPE, "c12_check_vp", elits)], 1500)
